@@ -69,6 +69,16 @@ impl IoH {
     pub fn frame_len(&self, i: usize) -> usize {
         self.io.0.log.borrow()[i].len
     }
+    /// all bytes written by successful encode calls
+    pub fn bytes_written(&self) -> usize {
+        let mut n = 0;
+        let mut i = 0;
+        while i < self.frames() {
+            n += self.frame_len(i);
+            i += 1;
+        }
+        n
+    }
     /// bytes left behind by failed encode calls
     pub fn torn(&self) -> usize {
         self.io.0.torn.get()
